@@ -53,6 +53,45 @@ func (c *Ctx) checkSideConditions(e *ReviewedEntry) string {
 			if strings.Join(got, ";") != strings.Join(want, ";") {
 				return fmt.Sprintf("%s of %s are now {%s}, reviewed for {%s}", f[0], subject, strings.Join(got, "; "), strings.Join(want, "; "))
 			}
+		case "argtypes":
+			// argtypes <Func> <idx> == T1; T2 : dynamic types passed (via MakeInterface) at an argument position
+			parts := strings.SplitN(strings.TrimSpace(strings.TrimPrefix(sc, "argtypes")), "==", 2)
+			if len(parts) != 2 {
+				return "malformed side condition: " + sc
+			}
+			lhs := strings.Fields(parts[0])
+			if len(lhs) != 2 {
+				return "malformed side condition: " + sc
+			}
+			fn := c.P.funcByName(lhs[0])
+			if fn == nil {
+				return "function " + lhs[0] + " no longer exists"
+			}
+			idx := int(lhs[1][0] - '0')
+			var want []string
+			for _, w := range strings.Split(parts[1], ";") {
+				if w = strings.TrimSpace(w); w != "" {
+					want = append(want, w)
+				}
+			}
+			sort.Strings(want)
+			set := map[string]bool{}
+			for _, e := range c.P.callersOf(fn) {
+				if e.Site == nil || idx >= len(e.Site.Common().Args) {
+					set["?"] = true
+					continue
+				}
+				a := e.Site.Common().Args[idx]
+				if mi, ok := a.(*ssa.MakeInterface); ok {
+					set[typeStr(mi.X.Type())] = true
+				} else {
+					set["?"+a.Name()] = true
+				}
+			}
+			got := sortedKeys(set)
+			if strings.Join(got, ";") != strings.Join(want, ";") {
+				return fmt.Sprintf("argument types of %s are now {%s}, reviewed for {%s}", lhs[0], strings.Join(got, "; "), strings.Join(want, "; "))
+			}
 		default:
 			return "unknown side condition: " + sc
 		}
